@@ -235,6 +235,14 @@ theorem first_program_with_holes_refused (o : BackendOps D B) (s : Sys B) (hp : 
     (hh : s.prog.initRegRefs.all (·.active) = false) : step o s .endProg = .error .runtime := by
   simp [step, engineRun, engineStart, hp, hh]
 
+/-- **a successor with another creation / deletion history is refused**, even when its ACTIVE subsystems coincide with
+those the previous segment ended with (an independently built program, a fragment that creates and deletes a mode run
+twice): the whole RegRef table is compared, the run raises `RuntimeError` and nothing is executed -/
+theorem successor_mismatch_refused (o : BackendOps D B) (s : Sys B) (pr : List RegRef) (hp : s.prev = some pr)
+    (hne : s.prog.initRegRefs ≠ pr) : step o s .endProg = .error .runtime := by
+  have : (s.prog.initRegRefs == pr) = false := by simpa using hne
+  simp [step, engineRun, engineStart, hp, Prog.canFollow, this]
+
 /-- **hand-over between segments**: `Program(prev)` can always follow `prev` … -/
 theorem can_follow_child (p : Prog) : p.child.canFollow p.regRefs = true := canFollow_child p
 
@@ -364,5 +372,13 @@ example : ∃ p : Prog, (Prog.fresh 3 >>= fun p => p.delOp [.own 1]) = .ok p ∧
     (match p.allOp [.own 2, .int 0] 1 with | .ok q => q.circuit.length | .error _ => 0) = p.circuit.length + 2 ∧
     (match p.allOp [.own 2, .int 1] 1 with | .ok _ => none | .error e => some e) = some .regRef :=
   ⟨_, rfl, by decide, by decide⟩
+
+/-- `successor_mismatch_refused`: after `Program(2)` with `Del q[1]`, an independent `Program(1)` has the same active
+subsystem `{0}` but is refused; so is the program that deleted a mode as its own successor -/
+example : ∃ p q : Prog, (Prog.fresh 2 >>= fun p => p.delOp [.own 1]) = .ok p ∧ Prog.fresh 1 = .ok q ∧
+    q.register = p.register ∧ q.initRegRefs ≠ p.regRefs ∧ p.initRegRefs ≠ p.regRefs ∧
+    (match step (gaussOps Int) ⟨q, some p.regRefs, PS.begin 2⟩ .endProg with
+      | .error e => some e
+      | .ok _ => none) = some .runtime := ⟨_, _, rfl, rfl, by decide, by decide, by decide, by decide⟩
 
 end SFV.C08
